@@ -328,6 +328,11 @@ func checkKV(sc *Scenario, rs *runState, out *explorer.Outcome) []cviol {
 					popped = append(popped, strconv.Quote(string(v.S)))
 				}
 			}
+			if name == "blpop" || name == "brpop" {
+				if v, err := model.DecodeOne(o.Reply); err == nil && v.K == model.Array && len(v.Arr) == 2 {
+					popped = append(popped, strconv.Quote(string(v.Arr[1].S)))
+				}
+			}
 		}
 		before := count(rs.seedKS.Canon(), keys)
 		pushed := []string{}
@@ -406,7 +411,17 @@ type result struct {
 func obsKey(rs *runState) string {
 	var s []string
 	for _, o := range rs.ops {
-		s = append(s, fmt.Sprintf("%d:%q=%q", o.Thread, o.Args, o.Reply))
+		rep := fmt.Sprintf("%q", o.Reply)
+		if v, err := model.DecodeOne(o.Reply); err == nil && v.K == model.Array {
+			// reply order of set-valued commands follows Go map iteration: normalise
+			var el []string
+			for _, e := range v.Arr {
+				el = append(el, e.String())
+			}
+			sort.Strings(el)
+			rep = strings.Join(el, ",")
+		}
+		s = append(s, fmt.Sprintf("%d:%q=%s", o.Thread, o.Args, rep))
 	}
 	sort.Strings(s)
 	d := rs.mgr.CurrentDB.VerifDump()
